@@ -1053,8 +1053,11 @@ def gen_opts(r: random.Random, spec: dict, *, native_fail=False, allow_sm=False)
             return {"version": r.choice([1, 11, 0])}
         if x < 0.7:
             return {"version": r.choice([v for v in (4, 5, 6, 7) if v >= min(minv, 7)] or [7]), "opt": {"fp": True, "ss": None}}
-        if x < 0.85:
+        if x < 0.8:
             return {"version": 2, "ac": True}
+        if x < 0.92 and spec["kind"] == "expr":
+            # compiled for the other mode: rejected by the final op sweep, after everything else ran
+            return {"version": r.choice([v for v in range(max(minv, 2), 11)]), "mode": "sig" if spec.get("mode") == "app" else "app"}
         return {"version": max(2, minv - 1)}
     hi = 10
     v = r.choice([x for x in range(max(minv, 2), hi + 1)])
@@ -1141,7 +1144,7 @@ def gen_plan(seed: int, cfg: dict) -> dict:
                 elif y < 0.75:
                     fault_sub = {"kind": "needv", "v": r.choice([7, 8, 10])}
                 elif not want_router:
-                    prog_fault = r.choice([["slotdup", r.choice([5, 77])], ["rbw"], ["manyabi", r.choice([130, 260])], ["pop", ["badtype"]]])
+                    prog_fault = r.choice([["slotdup", r.choice([5, 77])], ["rbw"], ["manyabi", r.choice([130, 260])], ["pop", ["badtype"]], ["pragma", "<0.1.0", ["pop", ["int", 1]]]])
                 else:
                     prog_fault = ["dup_method"]
             spec = make_program(not is_noise, want_router, fault_sub, prog_fault)
